@@ -98,6 +98,23 @@ func genStream(r *gen.Rand, cfg gen.ProgCfg, files map[string]string, maxMerges 
 		prev = append(prev, id)
 		prevTrees = append(prevTrees, doc)
 	}
+	// a document nested deeper than any recursion guard, with a reference that
+	// jumps to a subtree near its bottom
+	if r.Chance(0.012) {
+		levels := gen.PickAny(r, []int{990, 1005, 1100, 1500})
+		var v any = map[string]any{"$merge": "t", "own": 1, "l": []any{1, 2}}
+		for i := 0; i < levels; i++ {
+			v = map[string]any{"a": v}
+		}
+		path := "deep" + strings.Repeat(".a", levels-r.Range(0, 20))
+		doc := map[string]any{"a_ref": map[string]any{"$replace": path}, "deep": v, "t": map[string]any{"x": 1, "l": []any{3}}, "id": fmt.Sprintf("d%d", nBase)}
+		id := fmt.Sprintf("L0|doc%d", nBase)
+		merges = append(merges, wire.Op{Op: "MergeDocument", ID: id, Data: &wire.Tree{V: doc}})
+		prev = append(prev, id)
+		prevTrees = append(prevTrees, map[string]any{"t": map[string]any{"x": 1}, "id": fmt.Sprintf("d%d", nBase)})
+		nBase++
+		planted = append(planted, "very-deep")
+	}
 	// cross-document references in either direction (a forward reference is
 	// evaluated while its target is still unevaluated), some of them at
 	// subtrees that themselves hold directives
